@@ -1423,6 +1423,10 @@ impl Scenario for RScenario {
             Node::Join { tail, .. } => tail.is_empty(),
         }) {
             st.bump("probe.n6_nonempty_chunk_tree");
+            if matches!(self.prop, RProp::C02) {
+                // reach measure: 188 = sum_k C(5,k-1) * Catalan(k-1) trees over 6 items in non-empty chunks
+                st.note("reach.distinct_n6_trees_of_188", tr.tree.shape_hash());
+            }
         }
         let v = self.execute(&tr, st);
         let f = v.map(|viol| Failure { viol, trace: serde_json::to_value(&tr).unwrap() });
